@@ -158,6 +158,30 @@ fn gen_nf(r: &mut Rng, theme_mask: u32, theme_tag: &Option<String>) -> Nf {
     }
 }
 
+/// A near copy of `t`: most fields kept, so that a list holds several rules with the same mask, tag
+/// and shape (what grouping / fusing / de-duplicating code paths need to do anything).
+fn vary(r: &mut Rng, t: &Nf, theme_mask: u32, theme_tag: &Option<String>) -> Nf {
+    let fresh = gen_nf(r, theme_mask, theme_tag);
+    let mut c = t.clone();
+    if r.chance(15) {
+        c.filter = fresh.filter;
+    }
+    if r.chance(10) {
+        c.mask = fresh.mask;
+    }
+    if r.chance(10) {
+        c.tag = fresh.tag;
+    }
+    if r.chance(10) {
+        c.hostname = fresh.hostname;
+    }
+    if r.chance(10) {
+        c.opt_domains = fresh.opt_domains;
+    }
+    c.id = if r.chance(20) { t.id } else { r.next() };
+    c
+}
+
 fn gen_nfl(r: &mut Rng, theme_mask: u32, theme_tag: &Option<String>) -> Nfl {
     let mut m = BTreeMap::new();
     let nb = r.below(4);
@@ -168,7 +192,12 @@ fn gen_nfl(r: &mut Rng, theme_mask: u32, theme_tag: &Option<String>) -> Nfl {
             _ => hash(*r.pick(WORDS)),
         };
         let n = r.range(0, 4);
-        m.insert(key, (0..n).map(|_| gen_nf(r, theme_mask, theme_tag)).collect());
+        if r.chance(35) {
+            let t = gen_nf(r, theme_mask, theme_tag);
+            m.insert(key, (0..n + 1).map(|_| vary(r, &t, theme_mask, theme_tag)).collect());
+        } else {
+            m.insert(key, (0..n).map(|_| gen_nf(r, theme_mask, theme_tag)).collect());
+        }
     }
     Nfl { filter_map: m }
 }
@@ -207,7 +236,20 @@ pub fn typed_hostile(seed: u64, idx: u64) -> Vec<u8> {
         filters_tagged: gen_nfl(&mut r, theme_mask, &theme_tag),
         filters: gen_nfl(&mut r, theme_mask, &None),
         generic_hide: gen_nfl(&mut r, theme_mask | (1 << 30) | (1 << 22), &None),
-        tagged_filters_all: (0..n_tagged).map(|_| gen_nf(&mut r, theme_mask, &theme_tag)).collect(),
+        tagged_filters_all: if r.chance(50) {
+            // several near copies of one template, tokenless more often than not (one shared bucket)
+            let mut t = gen_nf(&mut r, theme_mask, &theme_tag);
+            if r.chance(60) {
+                t.hostname = None;
+                t.opt_domains = None;
+                t.opt_not_domains = None;
+                t.mask &= !(1 << 21);
+                t.tag = Some((*r.pick(&["t1", "t2", "t3"])).to_string());
+            }
+            (0..n_tagged + 2).map(|_| vary(&mut r, &t, theme_mask, &theme_tag)).collect()
+        } else {
+            (0..n_tagged).map(|_| gen_nf(&mut r, theme_mask, &theme_tag)).collect()
+        },
         enable_optimizations: r.chance(60),
         resources: RedirectStore::default(),
         simple_class_rules: sset(&mut r),
